@@ -15,3 +15,4 @@ open SoupVerif
 #print axioms C14.debug_only_prints
 #print axioms C14.debug_read_only_in_guards
 #print axioms C14.caches_are
+#print axioms C14.interpreter_setters_empty
